@@ -8,6 +8,11 @@ import (
 
 const vMaxL = 6
 
+// LimitReadCloser(src, N) for symbolic N in 0..8, sources of 0..6 symbolic bytes split into arbitrary chunks (zero-length
+// reads, EOF alone or with the last data) and consumer buffers of 1..4 bytes: a source of at most N bytes is delivered
+// unchanged and ends with EOF; a longer one delivers at most N bytes (a prefix), then ErrStreamTooLarge - never EOF -
+// with the source closed once; after Close the source has been closed exactly once.
+//
 //verif:harness prop=C16 name=limit_read unwind=12
 func VerifLimitRead() {
 	L := zzverif.Choose("L", vMaxL+1)
